@@ -172,6 +172,8 @@ func runC30(c *Ctx) {
 		var walk func(n ast.Node, depth int)
 		why := ""
 		found := false
+		subst := map[types.Object]types.Object{}
+		helperDepth := 0
 		walk = func(n ast.Node, depth int) {
 			ast.Inspect(n, func(m ast.Node) bool {
 				if m == n {
@@ -192,6 +194,36 @@ func runC30(c *Ctx) {
 					}
 					walk(x.Body, depth+1)
 					return false
+				case *ast.CallExpr:
+					// the relaxation step may live in a helper of the package that is handed
+					// the loop variables: its parameters stand for them
+					var callee *types.Func
+					switch fe := x.Fun.(type) {
+					case *ast.Ident:
+						callee, _ = info.ObjectOf(fe).(*types.Func)
+					case *ast.SelectorExpr:
+						callee, _ = info.ObjectOf(fe.Sel).(*types.Func)
+					}
+					if callee == nil || callee.Pkg() != f.Pkg() || helperDepth > 0 {
+						return true
+					}
+					gd := p.Decl(callee)
+					if gd == nil || gd.Body == nil {
+						return true
+					}
+					ps := callee.Type().(*types.Signature).Params()
+					if ps.Len() != len(x.Args) {
+						return true
+					}
+					for i, a := range x.Args {
+						if id, isID := ast.Unparen(a).(*ast.Ident); isID {
+							subst[ps.At(i)] = info.ObjectOf(id)
+						}
+					}
+					helperDepth++
+					walk(gd.Body, depth)
+					helperDepth--
+					return true
 				case *ast.BinaryExpr:
 					if x.Op != token.ADD {
 						return true
@@ -201,6 +233,11 @@ func runC30(c *Ctx) {
 					rk, rb, ok2 := twoIndex(x.Y, info)
 					if !ok1 || !ok2 {
 						return true
+					}
+					for _, o := range []*types.Object{&la, &lk, &rk, &rb} {
+						if so, has := subst[*o]; has {
+							*o = so
+						}
 					}
 					var pivot types.Object
 					switch {
@@ -244,7 +281,9 @@ func runC30(c *Ctx) {
 			c.Check(why == "", "relaxation-structure", "networkconnector.FloydWarshallRouter.floydWarshall#pivot-outermost", fd.Pos(), "pivot loop outermost", why)
 		}
 		// the update takes distance and next hop together from [i][k]
-		t := ExtractTable(p, f, TableConfig{Domain: []int{0, 1, 2}, LoopsOnce: true})
+		t := ExtractTable(p, f, TableConfig{Domain: []int{0, 1, 2}, LoopsOnce: true, Inline: func(g *types.Func) bool {
+			return g.Pkg() == f.Pkg() && !g.Exported() && p.Decl(g) != nil
+		}})
 		ok, why2 := len(t.Unsupported) == 0 && len(t.Rows) > 0, "outside the analysable fragment: "+strings.Join(t.Unsupported, ";")
 		sawUpdate := false
 		for _, r := range t.Rows {
@@ -510,7 +549,30 @@ func runC34(c *Ctx) {
 		}
 		sumF := p.Field("tracing", spec.typ, spec.sum)
 		cntF := p.Field("tracing", spec.typ, "taskCount")
-		inflF := p.Field("tracing", spec.typ, "inflightTasks")
+		// the start-time table is the tracer's map field, whatever it is called
+		var inflF *types.Var
+		if recv := f.Type().(*types.Signature).Recv(); recv != nil {
+			rt := recv.Type()
+			if pt, isP := rt.(*types.Pointer); isP {
+				rt = pt.Elem()
+			}
+			if stt, isS := rt.Underlying().(*types.Struct); isS {
+				nm := 0
+				for i := 0; i < stt.NumFields(); i++ {
+					if _, isM := stt.Field(i).Type().Underlying().(*types.Map); isM {
+						inflF = stt.Field(i)
+						nm++
+					}
+				}
+				if nm != 1 {
+					inflF = nil
+				}
+			}
+		}
+		evName := "task"
+		if ps := f.Type().(*types.Signature).Params(); ps.Len() == 1 {
+			evName = ps.At(0).Name()
+		}
 		if sumF == nil || inflF == nil {
 			c.Unknown("duration-accounting", "tracing."+spec.typ+".EndTask", p.Decl(f).Pos(), "the tracer no longer has an exact-sum field "+spec.sum)
 			continue
@@ -530,7 +592,7 @@ func runC34(c *Ctx) {
 				return false, "the duration of a tracked task must be added to the exact sum, once"
 			}
 			rhs := strings.ReplaceAll(st[0].Args[0], " ", "")
-			if !strings.HasPrefix(rhs, "task.Time-") || !strings.Contains(rhs, "inflightTasks[task.ID]") {
+			if !strings.HasPrefix(rhs, evName+".Time-") || !strings.Contains(rhs, inflF.Name()+"["+evName+".ID]") {
 				return false, "the duration added must be the end time minus the recorded start time of that task"
 			}
 			if len(del) != 1 {
@@ -571,6 +633,21 @@ func runC34(c *Ctx) {
 		ex := p.LookupFunc("tracing", "BusyTimeTracer", "extendTaskTime")
 		ovs := CallSites([]*ssa.Function{fn}, func(g *types.Func) bool { return g == ov })
 		exs := CallSites([]*ssa.Function{fn}, func(g *types.Func) bool { return g == ex })
+		if len(ovs) == 0 && len(exs) == 0 {
+			// the merging loop may live in an unexported helper that taskBusyTime calls
+			for _, b := range fn.Blocks {
+				for _, in := range b.Instrs {
+					cl, isCall := in.(*ssa.Call)
+					if !isCall || len(ovs) > 0 {
+						continue
+					}
+					if g := cl.Common().StaticCallee(); g != nil && len(g.Blocks) > 0 && pkgOfFn(g) == pkgOfFn(fn) {
+						ovs = CallSites([]*ssa.Function{g}, func(h *types.Func) bool { return h == ov })
+						exs = CallSites([]*ssa.Function{g}, func(h *types.Func) bool { return h == ex })
+					}
+				}
+			}
+		}
 		why := ""
 		if len(ovs) == 0 || len(exs) == 0 {
 			why = "overlap test or extension not found: shape not understood"
